@@ -18,7 +18,7 @@
    generated programs on the in-tree and the reference go-ethereum v1.8.27 interpreters and compares
    outcome class, return data, post-state root and logs (partial, DESIGN.md C10). *)
 From Coq Require Import ZArith Bool Lia List.
-From AnnVerif Require Import Model.EvmArith Proofs.EvmProofs Model.EvmCore Proofs.EvmCoreProofs Model.EvmWorld Proofs.EvmWorldProofs.
+From AnnVerif Require Import Model.EvmArith Proofs.EvmProofs Model.EvmCore Proofs.EvmCoreProofs Proofs.EvmTyping Model.EvmWorld Proofs.EvmWorldProofs.
 Import ListNotations.
 Open Scope Z_scope.
 
@@ -115,6 +115,25 @@ Example c10_core_nonvacuous :
   call 1000 cx_env cx_badjump [] = OFail /\
   call 4500 cx_env cx_overflow [] = OFail.
 Proof. vm_compute. repeat split; reflexivity. Qed.
+
+(* type safety: in an environment of words and bytes, every value the machine holds stays of its
+   kind - stack entries, storage keys and values are 256-bit words, memory cells are bytes, memory
+   stays within what the model sizes, the program counter within the code (plus a PUSH operand) -
+   through every instruction (every pure instruction, SHA3 via Model/Keccak.v included) and so in
+   every state of every run *)
+Theorem c10_type_safety :
+  forall e code m m', wf_env e code -> typed code m -> step e code m = inl m' -> typed code m'.
+Proof. exact step_typed. Qed.
+Print Assumptions c10_type_safety.
+Theorem c10_type_safety_of_runs :
+  forall fuel e code, wf_env e code -> forall m, typed code m -> Forall (typed code) (states fuel e code m).
+Proof. exact run_typed. Qed.
+Print Assumptions c10_type_safety_of_runs.
+Theorem c10_every_result_is_a_word :
+  forall op a b c r, eval op a b c = Some r -> word a -> word b -> word c -> word r.
+Proof. exact eval_word. Qed.
+Theorem c10_hash_is_a_word : forall msg, word (Keccak.keccak_word msg).
+Proof. exact keccak_word_word. Qed.
 
 (* ---- the machine across contracts (Model/EvmWorld.v) ---- *)
 
